@@ -5,7 +5,7 @@
    consumers: lisp_lex / lisp_read_string (Emacs Lisp), csv_read_rfc (RFC 4180), csv_read_bs
    (backslash escapes), xml_decode (XML character data).  All statements hold for ALL byte strings
    (no printability or length restriction) unless a hypothesis says otherwise. *)
-From LedgerV Require Import Base.Prelude Gen.CsvFormat Model.Escape Proofs.EscapeProofs.
+From LedgerV Require Import Base.Prelude Gen.CsvFormat Model.Escape Proofs.EscapeProofs Proofs.EscapeXmlProofs.
 Local Open Scope Z_scope.
 
 (* ---- emacs ---- *)
@@ -60,6 +60,32 @@ Theorem xml_leaf_text : forall key data ind, data <> [] ->
   = indent_str ind ++ [60] ++ key ++ [62] ++ xml_encode data ++ [60; 47] ++ key ++ [62; 10].
 Proof. exact write_leaf. Qed.
 Print Assumptions xml_leaf_text.
+
+(* element structure: for every property tree whose element names are names (no < > / space
+   quote =) and whose attribute names hold no quote / < >, the tag scanner finds exactly the
+   elements of the tree - so no text or attribute value is ever taken for markup - and every end
+   tag closes the innermost open element *)
+Theorem xml_elements_well_nested : forall key pt ind,
+  names_okb key pt = true ->
+  xml_tags XsText (write_el key pt ind) = Some (tag_events key pt) /  well_nested [] (tag_events key pt) = true.
+Proof. exact xml_structure_lemma. Qed.
+Print Assumptions xml_elements_well_nested.
+
+(* the three sections ledger writes satisfy that hypothesis whatever the journal's texts are *)
+Theorem xml_transactions_well_formed : forall xs,
+  exists evs, xml_tags XsText (xml_transactions xs) = Some evs /\ well_nested [] evs = true.
+Proof. exact xml_transactions_structure. Qed.
+Print Assumptions xml_transactions_well_formed.
+
+Theorem xml_accounts_well_formed : forall accts,
+  exists evs, xml_tags XsText (xml_accounts accts) = Some evs /\ well_nested [] evs = true.
+Proof. exact xml_accounts_structure. Qed.
+Print Assumptions xml_accounts_well_formed.
+
+Theorem xml_commodities_well_formed : forall cs,
+  exists evs, xml_tags XsText (xml_commodities cs) = Some evs /\ well_nested [] evs = true.
+Proof. exact xml_commodities_structure. Qed.
+Print Assumptions xml_commodities_well_formed.
 
 (* ---- csv written with quoted_rfc ---- *)
 Theorem csv_rfc_roundtrip : forall rows,
